@@ -27,7 +27,10 @@ structure Producers.Consumes (P : Producers) : Prop where
   pname : ∀ e i v r, P.pname e i = .ok v r → inputCost r + 64 ≤ inputCost i
   bnode : ∀ e i v r, P.bnode e i = .ok v r → inputCost r + 64 ≤ inputCost i
   langtag : ∀ e i v r, P.langtag e i = .ok v r → inputCost r + 64 ≤ inputCost i
-  numeric : ∀ e i v r, P.numeric e i = .ok v r → inputCost r + 64 ≤ inputCost i
+  /-- `produceNumericLiteral` is only called on `.` when a digit follows (on a lone `.` the Go function returns an
+      empty token and pushes the `.` back) -/
+  numeric : ∀ e c rest v r, P.numeric e (c :: rest) = .ok v r →
+    (c = 0x2e → ∃ d rest', rest = d :: rest' ∧ 0x30 ≤ d ∧ d ≤ 0x39) → inputCost r + 64 ≤ inputCost (c :: rest)
   boolean : ∀ e i b r, P.boolean e i = .bool b r → inputCost r + 64 ≤ inputCost i
 
 /-- A language tag token is never empty. -/
